@@ -76,13 +76,13 @@ def opsig(op):
     return op[0]
 
 def worker(args):
-    name, tier, seed = args
+    name, tier, seed, fixture = args
     from vf.models import catalog
     sub = core.Sub()
     env = sx.Env(catalog.by_name(name))
     rel = name.split('-')[0]
     ops = [op for op in env.ops() if op[0] != 'qdel']
-    ex = sx.Explorer(env, ops=ops)
+    ex = sx.Explorer(env, fixtures=(fixture,), ops=ops)
     presigs = {}
     def visit(env_, fixture, hist, x):
         op = hist[-1]
